@@ -126,11 +126,11 @@ fn replay_with(case: &Value, ctor: &str) -> Vec<Obs> {
             capture::take();
             history.push_str(&format!(" {}{} -> {}", mode, if fire > 0 { format!("[timer fires before count_rules #{}]", fire) } else { String::new() }, got));
             // (a call during which the query's OWN timer fired is C23's matter, not C22's)
-            if constrained && !ok && all_ok && !wto && wkind != "timeout" {
-                all_ok = false;
+            if constrained && !ok && first_bad.is_empty() {
                 first_bad = format!("episode {} call `{}`: reference {} / engine {}", ei + 1, mode,
                     match wkind { "ans" => format!("({})", show_vec(&wans)), "all" => format!("{:?}{}", wlist.iter().map(|a| show_vec(a)).collect::<Vec<_>>(), if wto { " + timeout" } else { "" }), k => k.to_string() }, got);
             }
+            if constrained && !ok && !wto && wkind != "timeout" { all_ok = false; }
         }
     }
     let what = format!("{} ::{}", show_prog(&case["prog"]), history);
